@@ -14,7 +14,8 @@ CLAIMS = {
               'against the reference step function written from the property text (whole-state equality), RaftLogStateMachine::apply and '
               'RaftLog::{append_and_apply, save_vote, commit, save_user_data, truncate, purge} against the reference step on state and on the index map '
               '(insert / cut below / cut above, values untouched), cache contents in the no-eviction regime (insert is exactly map insert), chunk rotation '
-              'changes nothing of the state machine; all chunk limits symbolic.  Not yet decided in this revision: payload-level refinement of read() and the batch append loop.'),
+              'changes nothing of the state machine; all chunk limits symbolic; read(): the index range handed to the iterator is exactly [from, max(from,to)) in index order (defect D5, fixed) and a resident entry is served from the cache with the id stored in the index; '
+              'get_log_id/log_state/stat report the fields of the state; the batch append loop applies one append_and_apply per entry in order (rule E7 desugaring). Lemma lemma_c01_refinement (U11, over the contracts only): the reference relation is preserved by every step.'),
         note=TRUST + ' History legality of purge (Raft-legal argument) is a stated precondition of the refinement clauses; update_state with an arbitrary state is outside the contracts.',
         technique='Verus function contracts against a reference step function, on extracted code',
         design='5 C01',
@@ -68,7 +69,8 @@ CLAIMS = {
     'C08': dict(
         text=('Unbounded deductive proof (Verus): RaftLog::flush sends the synced Write request first and RemoveChunks second and empties the removal list; the worker unlinks paths in list order; '
               'the obligation "an Unlink event happens only in a state with nothing unsynced" (unlinks_sound) is proved for handle_non_flush_request given its precondition and is a KNOWN FINDING (D9) at the two call sites in run_inner, '
-              'where the request is executed whatever the result of the preceding sync. Not decided in this revision: which chunks purge selects (oldest-first prefix) and the leak clause (D13).'),
+              'where the request is executed whatever the result of the preceding sync. RaftLog::purge (loop invariant): the chunks scheduled for removal are exactly the maximal prefix of the oldest closed chunks whose recorded last log id is at or below the purge point, oldest first, the kept chunks are untouched and still form a gap-free suffix. '
+              'KNOWN FINDING D13 (leak clause): "the oldest remaining closed chunk still holds a live entry" does not hold, because the selection uses the last id recorded when the chunk was closed.'),
         note=TRUST + ' Assumed: remove_file/fdatasync semantics, FIFO channel.',
         technique='Verus history invariant over a ghost effect trace + sent-message order, on extracted code',
         design='5 C08',
@@ -132,7 +134,7 @@ CLAIMS = {
         text=('Unbounded deductive proof (Verus) of every generated safety obligation (arithmetic overflow/underflow, index bounds, unwrap, std preconditions, reachable panic!) in the functions reachable from '
               'save_vote, commit, save_user_data, truncate, purge, flush, on_disk_size, log_state, under only the unconditionally preserved invariants (Inv_Cache, I7, wal_safe) and stated magnitude assumptions; '
               'no precondition on index/argument values except the known finding D6 (index u64::MAX).'),
-        note=TRUST + ' Magnitudes assumed: journal bytes, requests sent, cached bytes < 2^62, one encoded record / one payload < 2^61. read() and the batch append loop: see DESIGN.',
+        note=TRUST + ' Magnitudes assumed: journal bytes, requests sent, cached bytes < 2^62, one encoded record / one payload < 2^61. read(), stat(), drain_cache_evictable and the batch append loop are under the same safety contracts (for-loops desugared by rule E7; iterator adapter chains in read/stat are assumed, see DESIGN).',
         technique='Verus safety obligations on extracted code under unconditional invariants',
         design='5 C16',
     ),
